@@ -34,6 +34,9 @@ func main() {
 	if id == "basm-run" && len(os.Args) >= 3 {
 		os.Exit(basmRunCmd(os.Args[2]))
 	}
+	if id == "go-run" && len(os.Args) >= 3 { // development aid: compile a Go source with bondgo and simulate it
+		os.Exit(goRunCmd(os.Args[2]))
+	}
 	if id == "C01-child" && len(os.Args) >= 5 {
 		os.Exit(c01Child(os.Args[2], os.Args[3], os.Args[4]))
 	}
